@@ -11,7 +11,7 @@ BOUNDS = ("NumPy shapes (3,), (2,2); Awkward layouts: flat, jagged (with an empt
           "(timelike, forward, off-axis, away from +-pi); binary pairings np-np, ak-ak, np-obj, obj-np, ak-obj, obj-ak, ak-np, np-ak, record-record (+4 more in the thorough tier)")
 
 
-def run(prop, tags, title, extra_checks=None, assumptions=(), replay_handler="vv.props.engined_prop:replay", symbolic_numpy=False):
+def run(prop, tags, title, extra_checks=None, assumptions=(), replay_handler="vv.props.engined_prop:replay", symbolic_numpy=False, also=None):
     """tags: the property tags of the lattice obligations that belong to this check"""
     report = C.Report(prop)
     t0 = time.time()
@@ -20,7 +20,7 @@ def run(prop, tags, title, extra_checks=None, assumptions=(), replay_handler="vv
     rb = C.pool_map(E.binary_shard, b)
     n_all = sum(r[0] for r in ru + rb)
     bad_all = [x for r in ru + rb for x in r[1]]
-    bad = [(oid.replace(p + "/", prop + "/", 1), d) for p, oid, d in bad_all if p in tags]
+    bad = [(oid.replace(p + "/", prop + "/", 1), d) for p, oid, d in bad_all if p in tags or (also is not None and also(p, oid))]
     pr = [(oid.replace(p + "/", prop + "/", 1), ok, d) for p, oid, ok, d in E.probes() if p in tags]
     extra = []
     n_extra = 0
